@@ -29,8 +29,9 @@ NR = "ariadne_codegen.contrib.no_reimports.NoReimportsPlugin"
 ID = "vf_plugins.IdentityPlugin"
 MA = "vf_plugins.MarkerA"
 MB = "vf_plugins.MarkerB"
+MS = "vf_plugins.StripComment"
 FR_MODULE = "ariadne_codegen.contrib.client_forward_refs"  # module-path spelling: every Plugin subclass found in the module
-SHORT = {FR_MODULE: "ClientForwardRefs(module path)", SR: "ShorterResults", EO: "ExtractOperations", FR: "ClientForwardRefs", NR: "NoReimports", ID: "Identity", MA: "MarkerA", MB: "MarkerB"}
+SHORT = {FR_MODULE: "ClientForwardRefs(module path)", SR: "ShorterResults", EO: "ExtractOperations", FR: "ClientForwardRefs", NR: "NoReimports", ID: "Identity", MA: "MarkerA", MB: "MarkerB", MS: "StripComment"}
 
 
 def plugin_lists() -> List[List[str]]:
@@ -285,7 +286,7 @@ def worker(case: Dict[str, Any]) -> CaseResult:
             fl = sorted(feats | {"plugins." + label})
             shorter = SR in plist
             plist_norm = [FR if p_ == FR_MODULE else p_ for p_ in plist]
-            marker_ops = MA in plist or MB in plist
+            marker_ops = MA in plist or MB in plist or MS in plist
             for key, b in base["obs"].items():
                 o = res["obs"].get(key)
                 count("call_comparisons")
@@ -397,6 +398,17 @@ def worker(case: Dict[str, Any]) -> CaseResult:
                         violations.append(Violation(PROP, "identity-plugin-changes-nothing", "[%s] %s differs" % (label, f), fl, replay_case, mech="c15:identity"))
                 if sorted(p.name for p in base["dir"].glob("*.py")) != sorted(p.name for p in res["dir"].glob("*.py")):
                     violations.append(Violation(PROP, "identity-plugin-changes-nothing", "[%s] file set differs" % label, fl, replay_case, mech="c15:identity-files"))
+            if plist in ([MS, MA], [MA, MS]):
+                # a hook result that is falsy (an empty comment) is still the value the next plugin receives
+                wantc = ["# comment-marker:A"] if plist == [MS, MA] else []
+                for p2 in sorted(res["dir"].glob("*.py")):
+                    lines = p2.read_text().splitlines()
+                    gotc = [l for l in lines if l.startswith("# comment-marker:")]
+                    header = [l for l in lines[:3] if l.startswith("# Generated by")]
+                    count("falsy_hook_result_checks")
+                    if gotc != wantc or header:
+                        violations.append(Violation(PROP, "hooks-in-configuration-order", "[%s] %s: comment markers %r (want %r), generated-by header %r (want none: the first plugin returned an empty comment)" % (
+                            label, p2.name, gotc, wantc, header), fl, replay_case, mech="c15:order:falsy-hook-result"))
             if plist in ([MA, MB], [MB, MA]):
                 want = ["# marker:%s" % SHORT[p][-1] for p in plist]
                 wantc = ["# comment-marker:%s" % SHORT[p][-1] for p in plist]
@@ -442,6 +454,8 @@ def run(tier: str, seed: int) -> int:
         c = cw.make_case(seed, i, tier=tier, n_ops=3)
         pl = [all_lists[(i * per_case + k) % len(all_lists)] for k in range(per_case)]
         pl.append([ID] if i % 2 == 0 else ([MA, MB] if i % 4 == 1 else [MB, MA]))
+        if i % 4 == 2:
+            pl.append([MS, MA] if i % 8 == 2 else [MA, MS])
         if i % 3 == 0:
             # the same list spelled with a class path and with a module path must give byte-identical packages
             # (module path first, class path second is the order in which a two-pass resolution of the list would go wrong)
